@@ -3,16 +3,20 @@
 # Rebuilds the harness against /repo's current working tree on every invocation.
 set -u
 cd "$(dirname "$0")"
+export VERIF_ROOT="$(pwd)"
 export GOFLAGS=-mod=mod GOPROXY=off GOSUMDB=off GOTOOLCHAIN=local CGO_ENABLED=1
 ID="${1:?property id}"; MODE="${2:-quick}"
 mkdir -p .work/bin evidence replays
 ./prepare.sh >/dev/null 2>.work/prepare.err || { echo "INCONCLUSIVE property=$ID prepare failed: $(tail -3 .work/prepare.err)"; exit 2; }
 # the driver binary itself is always built against /repo (it only orchestrates; workers are built per flavour by the driver)
-if ! (cd harness && go build -o ../.work/bin/vh ./cmd/vh) 2>.work/build.$$.err; then
+VH=.work/bin/vh.$$
+trap 'rm -f $VH' EXIT
+if ! (cd harness && go build -o ../$VH ./cmd/vh) 2>.work/build.$$.err; then
   echo "INCONCLUSIVE property=$ID harness build failed:"; tail -20 .work/build.$$.err; rm -f .work/build.$$.err; exit 2
 fi
 rm -f .work/build.$$.err
 if [ "$MODE" = "--replay" ]; then
-  exec .work/bin/vh replay -file "${3:?replay file}"
+  $VH replay -file "${3:?replay file}"; exit $?
 fi
-exec .work/bin/vh drive -prop "$ID" -tier "$MODE" ${VERIF_EXTRA:-}
+$VH drive -prop "$ID" -tier "$MODE" ${VERIF_EXTRA:-}
+exit $?
